@@ -166,6 +166,13 @@ def check_basic(obs, case, ref_obs=None):
             state[full] = "acked"
     # ... and, under faults, identical to the fault-free content (paths written once only)
     if ref_obs is not None and ref_obs["status"] == 0:
+        # a path that several outputs name (e.g. make_raw's default path and another directive) is
+        # written more than once in the fault-free run: its final content there is the last writer's
+        seen_paths = set()
+        for o in outs:
+            if o["path"] in seen_paths:
+                multi.add(o["path"])
+            seen_paths.add(o["path"])
         for apath, _fmt in obs["acks"]:
             full = _abs(apath, case)
             if full in multi or full in obs["torn"]:
